@@ -23,6 +23,14 @@
 class EvalExpression
 {
 public:
+  // Waiting operators strictly tighten towards the top of the stack, so
+  // one slot per binary precedence level (PREC_MUL .. PREC_OR) is enough.
+  enum
+  {
+    OPER_STACK_LEN = Operator::PREC_OR - Operator::PREC_MUL + 1,
+    VAR_STACK_LEN = OPER_STACK_LEN + 1
+  };
+
   static int run(AsmContext *asm_context, Var &var, bool is_paren);
 
 private:
@@ -39,7 +47,7 @@ private:
 
     int push(Var &var)
     {
-      if (ptr >= 3) { return -1; }
+      if (ptr >= VAR_STACK_LEN) { return -1; }
       stack[ptr++] = var;
 
       return 0;
@@ -47,7 +55,7 @@ private:
 
     int push_front(Var &var)
     {
-      if (ptr >= 3) { return -1; }
+      if (ptr >= VAR_STACK_LEN) { return -1; }
 
       for (int n = ptr; n > 0; n--)
       {
@@ -133,7 +141,7 @@ private:
       }
     }
 
-    Var stack[3];
+    Var stack[VAR_STACK_LEN];
     int ptr;
   };
 
@@ -146,8 +154,14 @@ private:
 
     void push(Operator &oper)
     {
-      assert(ptr < 2);
+      assert(ptr < OPER_STACK_LEN);
       stack[ptr++] = oper;
+    }
+
+    int get_last_precedence()
+    {
+      assert(ptr > 0);
+      return stack[ptr - 1].precedence;
     }
 
     Operator pop()
@@ -189,18 +203,18 @@ private:
     }
 
   private:
-    Operator stack[2];
+    Operator stack[OPER_STACK_LEN];
     int ptr;
   };
 
   static bool need_symbol(int count)
   {
-    return count == 1 || count == 3;
+    return (count & 1) == 1;
   }
 
   static bool need_number(int count)
   {
-    return count == 0 || count == 2 || count == 4;
+    return (count & 1) == 0;
   }
 
   static int execute_stack(VarStack &var_stack, OperStack &oper_stack);
